@@ -129,6 +129,7 @@ def main():
         run_cases(chk, build(chk, 120), family=2, with_gen=have_model, label="[family 2] ")
     float_end_to_end(chk, 36 if chk.tier == "quick" else 600)
     analysis.float_far_tail(chk, 12 if chk.tier == "quick" else 120, clauses=("textbook",))
+    analysis.narrow_ints(chk, 4 if chk.tier == "quick" else 24, "the test computed from raw observations")
     chk.cov["rule"] = ("random rational samples (2..28 per variant, balanced and 1:many), all 12 option cells x "
                        "random confidence levels, exact vs Lean spec/model; plus float end-to-end runs vs scipy")
     chk.cov["proved"] = proved
